@@ -378,7 +378,8 @@ pub fn eval_function(
         }
         Function::Clamp => {
             let (x, min, max) = args.number_triple()?;
-            if min > max {
+            // Note: written to also reject NaN bounds, which `f32::clamp` would panic on
+            if !(min <= max) {
                 return Err(SvgdxError::InvalidData(
                     "clamp(x, min, max) - `min` must be <= `max`".to_string(),
                 ));
